@@ -287,6 +287,8 @@ func checkC08(ctx *Ctx, r *Report) {
 	c08RuneLengths(ctx, r, ts)
 	inProgressRestored(ctx, r, []string{"internal/jennies/golang/validation.go"}, 1)
 	c01SiblingReplacements(ctx, r)
+	c05GeneratedNamesUnique(ctx, r)
+	c01StrictDecoderNulls(ctx, r)
 	c08CueConstraintSiblings(ctx, r)
 	c08TypeListThroughWalkers(ctx, r)
 	c08UnionReuseComparesBranches(ctx, r)
